@@ -153,6 +153,8 @@ class Gen(object):
         self.includes = list(includes)
         self.features = set()
         self.defs = []
+        self.pending_defs = []
+        self.ndefs = 0
         self.budget = rng.choice([4, 6, 8, 10, 14])
 
     def text(self, loopvars=(), allow_expr=True):
@@ -228,9 +230,11 @@ class Gen(object):
                 if not any(d[0] == 'replace' for d in dirs):
                     dirs.append(('attrs', rng.choice(["{'id': a}", 'None', "{'class': None}", "[('k', s)]"])))
             elif name == 'def':
-                fn = 'f%d' % len(self.defs)
+                self.ndefs += 1
+                fn = 'f%d' % self.ndefs
                 arg = rng.choice(['', '(p)', "(p, q='d')"])
-                self.defs.append((fn, arg))
+                # callable only after the element is closed: no macro calls itself (unbounded recursion)
+                self.pending_defs.append((fn, arg))
                 dirs.append(('def', fn + arg))
                 if arg:
                     newvars.append('p')
@@ -275,11 +279,11 @@ class Gen(object):
             return self.i18n_choose(loopvars)
         if self.includes and 0.15 <= r < 0.25 and not self.modelled:
             return self.include()
-        if not self.modelled and 0.25 <= r < 0.32 and self.defs:
+        if not self.modelled and 0.25 <= r < 0.40 and self.defs:
             fn, arg = rng.choice(self.defs)
             self.features.add('call-def')
             return '${%s(%s)}' % (fn, '' if not arg else rng.choice(['a', '1', "'z'"]))
-        if not self.modelled and 0.32 <= r < 0.36:
+        if not self.modelled and 0.40 <= r < 0.43:
             self.features.add('python-pi')
             return '<?python pv = %s ?>' % rng.choice(['1', 'len("ab")', 'n'])
         tag = rng.choice(TAGS)
@@ -298,6 +302,7 @@ class Gen(object):
                 dirs = [d for d in dirs if d is not elem_form]
                 self.features.add('element-form')
         inner_vars = tuple(loopvars) + tuple(newvars)
+        mine, self.pending_defs = self.pending_defs, []
         has_choose = any(d[0] == 'choose' for d in dirs) or (elem_form and elem_form[0] == 'choose')
         body = self.content(depth, inner_vars, in_choose=has_choose)
         if has_choose and rng.random() < 0.8:
@@ -307,6 +312,7 @@ class Gen(object):
             ['i18n:%s="%s"' % (k, esc_attr(v)) for k, v in idirs]
         rng.shuffle(alist)
         s = '<%s%s>%s</%s>' % (tag, ''.join(' ' + a for a in alist), body, tag)
+        self.defs.extend(mine)
         if elem_form:
             k, v = elem_form
             argname = {'if': 'test', 'for': 'each', 'with': 'vars', 'choose': 'test', 'def': 'function',
